@@ -357,6 +357,9 @@ class ExprMixin(object):
         v = self.deref(v, st)
         if isinstance(v, (Tup, PyList)): return list(v.items)
         if isinstance(v, PyStr): return [PyStr(c) for c in v.s]
+        if isinstance(v, TupTerm):
+            S_ = v.z.sort()
+            return [wrap(t_, S_.accessor(0, i_)(v.z)) for i_, t_ in enumerate(v.tys)]
         raise Unsupported('cannot enumerate %r concretely' % (v,))
 
     def ev_Dict(self, n, st):
@@ -611,6 +614,10 @@ class ExprMixin(object):
                 return self.call_function(fi, [recv], {}, st, self_cls=self.class_home(r.cls), node=node)
             if fi is not None: return [(BoundMethod(recv, name), st)]
             raise AttributeErrorSite(r.cls, name)
+        if isinstance(r, SeqV) and getattr(r, 'cls', None) and name == 'xproxy':
+            xp = SeqV(r.z, r.elem); xp.xproxy_of = r.z
+            self.reg.assume('TableReaderBase.xproxy (_XProxy) presents the x components of the same list (3-line class, abstracted)')
+            return [(xp, st)]
         if isinstance(r, (DocObj, PyList, SeqV, PyDict, SymDict, SymSet, PySet, PyStr, Text, FnV, Sc, Tup, TupTerm)):
             return [(BoundMethod(recv, name), st)]
         if isinstance(r, ClassV):
@@ -705,8 +712,10 @@ class ExprMixin(object):
             raise Unsupported('symbolic index into concrete list')
         if isinstance(c, SeqV):
             if not (isinstance(i, Sc) and i.py == 'int'): raise Unsupported('sequence index %r' % (i,))
-            self.index_check(st, i.z, z3.Length(c.z))
-            return [(wrap(c.elem, c.z[i.z]), st)]
+            iz = i.z
+            if z3.is_int_value(z3.simplify(iz)) and z3.simplify(iz).as_long() < 0: iz = z3.Length(c.z) + iz
+            self.index_check(st, iz, z3.Length(c.z))
+            return [(wrap(c.elem, c.z[iz]), st)]
         if isinstance(c, PyDict):
             if isinstance(i, PyStr):
                 if i.s in c.d: return [(c.d[i.s], st)]
@@ -719,6 +728,10 @@ class ExprMixin(object):
             s3 = st.copy(); s3.pc.append(z3.And(*[iz != z3.StringVal(k) for k in c.d]))
             out.extend(self.raise_exc('KeyError', s3))
             return out
+        if isinstance(c, Obj) and getattr(self.reg.classes.get(c.cls), 'external', False):
+            ct = self.reg.get('<ext>', '%s.__getitem__' % c.cls)
+            if ct is None: raise Unsupported('subscript of external %s' % c.cls)
+            return self.call_contract(ct, None, [c, i], {}, st, node)
         if isinstance(c, TupTerm):
             if isinstance(i, Sc) and z3.is_int_value(i.z):
                 n = i.z.as_long(); S = c.z.sort()
@@ -1549,6 +1562,11 @@ class CallMixin(object):
                 self.doc_append(recv, self.text_of(d[0], st), st); return [(NONE, st)]
             if name == 'getvalue': return [(Text(r.z), st)]
             if name in ('close', 'flush', '__enter__', '__exit__', 'seek'): return [(NONE, st)]
+        if isinstance(r, Sc) and r.py == 'str' and name == 'split' and not args:
+            self.reg.assume('A4: str.split() without argument = the whitespace-separated tokens (uninterpreted function split_ws)')
+            return [(SeqV(split_ws(r.z), T.Str), st)]
+        if isinstance(r, Sc) and r.py == 'str' and name == 'strip' and not args:
+            return [(Sc(strip_ws(r.z), 'str'), st)]
         if isinstance(r, PyStr):
             if name == 'format': return [(self.format_brace(r.s, args, kw, st), st)]
             if name == 'join': return [(self.join(r, d[0], st), st)]
@@ -1601,6 +1619,11 @@ class CallMixin(object):
             c = self.reg.get('<ext>', '%s.%s' % (r.cls, name))
             if c is None: raise Unsupported('external method %s.%s has no assumed contract' % (r.cls, name))
             return self.call_contract(c, None, [recv] + list(args), kw, st, node)
+        if isinstance(r, SeqV) and getattr(r, 'cls', None) and name not in ('append', 'extend', 'sort'):
+            home = self.class_home(r.cls)
+            fi = home[0].find_method(home[1], name)
+            if fi is None: raise AttributeErrorSite(r.cls, name)
+            return self.call_function(fi, [recv] + list(args), kw, st, self_cls=home, node=node)
         if isinstance(r, (Obj, Rec)):
             if isinstance(r, Rec):
                 fi = r.module.find_method(r.cls, name); home = (r.module, r.cls)
@@ -1810,6 +1833,10 @@ class CallMixin(object):
             s_r.pc += c.on_raise(NS(self, s_r, frame=fr), ns_pre)
             self._raises.append(Outcome('raise', s_r, ExcV('<any>', origin=fi.qualname)))
             st.pc.append(z3.Not(rz))
+        for cls_, cond in (getattr(c, 'may_raise', None) or (lambda v: []))(ns_pre):
+            s_r = pre_state.copy(); s_r.frames.pop(); s_r.pc.append(cond)
+            self._raises.append(Outcome('raise', s_r, ExcV(cls_, origin=c.qualname)))
+            st.pc.append(z3.Not(cond))
         st.pc += c.ensures(ns_post, ns_pre, res_z)
         if c.names_result is not None: st.pc += c.names_result(ns_post, res_z)
         return [(res_v, st)]
@@ -1858,6 +1885,13 @@ class CallMixin(object):
     def call_external(self, ext, args, kw, st, node):
         mod, name = ext
         if mod == 'io' and name == 'StringIO': return self.call_builtin('StringIO', args, kw, st, node)
+        if mod == 'bisect' and name == 'bisect_left':
+            a = self.deref(args[0], st)
+            if isinstance(a, SeqV) and getattr(a, 'xproxy_of', None) is not None:
+                from contracts.tablereaders import BIS
+                self.reg.assume('A4: bisect.bisect_left on the x components (uninterpreted index function characterised by the bisect axioms in the precondition)')
+                return [(Sc(BIS(a.xproxy_of, self.as_real(self.deref(args[1], st))), 'int'), st)]
+            raise Unsupported('bisect_left over %r' % (a,))
         if mod == 'collections' and name == 'namedtuple':
             nm = self.deref(args[0], st); fl = self.deref(args[1], st)
             fields = [self.deref(x, st) for x in self.iter_concrete(args[1], st)]
@@ -1884,6 +1918,7 @@ def round_n(x, n):
     p = z3.RealVal(10 ** n)
     return z3.ToReal(z3.ToInt(x * p + z3.RealVal('1/2'))) / p
 
+split_ws = z3.Function('split_ws', StrS, z3.SeqSort(StrS)); strip_ws = z3.Function('strip_ws', StrS, StrS)
 parses_int = z3.Function('parses_int', StrS, BoolS); parses_float = z3.Function('parses_float', StrS, BoolS)
 str_to_int = z3.Function('str_to_int', StrS, IntS); str_to_real = z3.Function('str_to_real', StrS, RealS)
 
@@ -1924,6 +1959,9 @@ class Executor(Exec, ExprMixin, StmtMixin, CallMixin):
         if k == 'Doc': return st.new_cell(DocObj(z3.Const(nm + '0', Doc)))
         if k == 'MList':
             return st.new_cell(SeqV(z3.Const(nm, z3.SeqSort(ty.args[0].sort())), ty.args[0]))
+        if k == 'ListObj':
+            v = SeqV(z3.Const(nm, z3.SeqSort(ty.args[1].sort())), ty.args[1]); v.cls = ty.args[0]
+            return v
         if k == 'Opt':
             return Opt(z3.Const(nm + '?none', BoolS), self.make_input(nm, ty.args[0], st))
         if k == 'None': return NONE
